@@ -163,7 +163,7 @@ def noise_case(draw):
 
 def plan(tier, seed):
     jobs = []
-    n = scaled(640 if tier == "quick" else 12000)
+    n = scaled(3200 if tier == "quick" else 48000)
     shards = 16 if tier == "quick" else 64
     for k in range(shards):
         jobs.append({"sub": "noise", "seed": seed, "shard": k, "n": max(1, n // shards), "cost": 5})
